@@ -133,6 +133,54 @@ class ExprCanon(ast.NodeTransformer):
     def visit_Call(self, node):
         self.generic_visit(node)
         f = node.func
+        # f(**{'a': x, 'b': y}) -> f(a=x, b=y)
+        if any(k.arg is None and isinstance(k.value, ast.Dict) and k.value.keys
+               and all(isinstance(q, ast.Constant) and isinstance(q.value, str) and q.value.isidentifier() for q in k.value.keys)
+               for k in node.keywords):
+            kws, names = [], []
+            for k in node.keywords:
+                if k.arg is None and isinstance(k.value, ast.Dict) and k.value.keys \
+                        and all(isinstance(q, ast.Constant) and isinstance(q.value, str) and q.value.isidentifier() for q in k.value.keys):
+                    for q, v in zip(k.value.keys, k.value.values):
+                        kws.append(ast.keyword(arg=q.value, value=v))
+                        names.append(q.value)
+                else:
+                    kws.append(k)
+                    names.append(k.arg)
+            if len(set(names)) == len(names):
+                node.keywords = kws
+        # getattr(x, 'name') -> x.name
+        if isinstance(f, ast.Name) and f.id == 'getattr' and len(node.args) == 2 and not node.keywords \
+                and isinstance(node.args[1], ast.Constant) and isinstance(node.args[1].value, str) and node.args[1].value.isidentifier():
+            return at(ast.Attribute(value=node.args[0], attr=node.args[1].value, ctx=ast.Load()), node)
+        # map(f, X) -> (f(_m) for _m in X)   (one iterable; f a name, an attribute or a lambda)
+        if isinstance(f, ast.Name) and f.id == 'map' and len(node.args) == 2 and not node.keywords \
+                and isinstance(node.args[0], (ast.Name, ast.Attribute, ast.Lambda)) and not isinstance(node.args[1], ast.Starred):
+            fn, coll = node.args
+            used = {n.id for n in ast.walk(node) if isinstance(n, ast.Name)}
+            var = '_m'
+            while var in used:
+                var += '_'
+            if isinstance(fn, ast.Lambda) and len(fn.args.args) == 1 and not (fn.args.vararg or fn.args.kwarg or fn.args.kwonlyargs or fn.args.defaults):
+                elt = Subst({fn.args.args[0].arg: ast.Name(id=var, ctx=ast.Load())}).visit(clone(fn.body))
+            else:
+                elt = ast.Call(func=fn, args=[ast.Name(id=var, ctx=ast.Load())], keywords=[])
+            gen = ast.comprehension(target=ast.Name(id=var, ctx=ast.Store()), iter=coll, ifs=[], is_async=0)
+            return at(ast.GeneratorExp(elt=elt, generators=[gen]), node)
+        # chain.from_iterable(E(p) for p in X) / chain(*[E(p) for p in X]) -> (_y for p in X for _y in E(p))
+        flat = None
+        if isinstance(f, ast.Attribute) and f.attr == 'from_iterable' and ast.unparse(f.value) in ('chain', 'itertools.chain') \
+                and len(node.args) == 1 and not node.keywords:
+            flat = node.args[0]
+        elif ast.unparse(f) in ('chain', 'itertools.chain') and len(node.args) == 1 and isinstance(node.args[0], ast.Starred) and not node.keywords:
+            flat = node.args[0].value
+        if isinstance(flat, (ast.GeneratorExp, ast.ListComp)) and len(flat.generators) == 1:
+            used = {n.id for n in ast.walk(node) if isinstance(n, ast.Name)}
+            var = '_y'
+            while var in used:
+                var += '_'
+            g2 = ast.comprehension(target=ast.Name(id=var, ctx=ast.Store()), iter=flat.elt, ifs=[], is_async=0)
+            return at(ast.GeneratorExp(elt=ast.Name(id=var, ctx=ast.Load()), generators=[flat.generators[0], g2]), node)
         # sum(1 for v in it if v == k) -> it.count(k)
         if isinstance(f, ast.Name) and f.id in ('sum', 'len') and len(node.args) == 1 and not node.keywords:
             g = node.args[0]
@@ -187,6 +235,43 @@ class ExprCanon(ast.NodeTransformer):
                     if isinstance(node.ops[0], ast.Is):
                         return at(ast.UnaryOp(op=ast.Not(), operand=anyc), node)
                     return at(anyc, node)
+        return node
+
+    def visit_DictComp(self, node):
+        self.generic_visit(node)
+        # {K(k, v): V(k, v) for k, v in {a: x, b: y}.items()}  ->  {K(a, x): V(a, x), K(b, y): V(b, y)}
+        if len(node.generators) == 1 and not node.generators[0].ifs and not node.generators[0].is_async:
+            g = node.generators[0]
+            it = g.iter
+            if isinstance(it, ast.Call) and isinstance(it.func, ast.Attribute) and it.func.attr == 'items' and not it.args and not it.keywords \
+                    and isinstance(it.func.value, ast.Dict) and all(isinstance(k, ast.Constant) for k in it.func.value.keys) \
+                    and len(it.func.value.keys) <= 24 and isinstance(g.target, ast.Tuple) and len(g.target.elts) == 2 \
+                    and all(isinstance(t, ast.Name) for t in g.target.elts):
+                kn, vn = g.target.elts[0].id, g.target.elts[1].id
+                keys, values = [], []
+                for k, v in zip(it.func.value.keys, it.func.value.values):
+                    sub = Subst({kn: k, vn: v})
+                    keys.append(canon_expr(sub.visit(clone(node.key))))
+                    values.append(canon_expr(sub.visit(clone(node.value))))
+                return at(ast.Dict(keys=keys, values=values), node)
+        return node
+
+    def visit_BoolOp(self, node):
+        self.generic_visit(node)
+        # `None or x` -> x; `True and x` -> x; `x or <truthy constant> or y` -> `x or <constant>`
+        is_or = isinstance(node.op, ast.Or)
+        vals = []
+        for i, v in enumerate(node.values):
+            last = i == len(node.values) - 1
+            if isinstance(v, ast.Constant) and not last:
+                if bool(v.value) == is_or:
+                    vals.append(v)
+                    break               # decides the expression
+                continue                # neutral operand
+            vals.append(v)
+        if len(vals) == 1:
+            return vals[0]
+        node.values = vals
         return node
 
     def _fuse(self, node):
@@ -1321,10 +1406,24 @@ class Normalizer:
     def bind(self, call: ast.Call, target: FuncInfo, recv, fi: FuncInfo):
         """-> mapping parameter name -> argument expression, or None when the call shape is not modelled."""
         a = target.node.args
-        if a.kwarg:
-            return None
         if any(isinstance(x, ast.Starred) for x in call.args) or any(k.arg is None for k in call.keywords):
             return None
+        if a.kwarg:
+            # f(x, **rest) called with plain keywords: rest is the dict of the keywords that name no parameter
+            named = {x.arg for x in a.posonlyargs + a.args + a.kwonlyargs}
+            inner = clone(call)
+            rest = [k for k in inner.keywords if k.arg not in named]
+            inner.keywords = [k for k in inner.keywords if k.arg in named]
+            shadow = copy.copy(target)
+            shadow_node = copy.copy(target.node)
+            shadow_node.args = copy.copy(a)
+            shadow_node.args.kwarg = None
+            shadow.node = shadow_node
+            mapping = self.bind(inner, shadow, recv, fi)
+            if mapping is None:
+                return None
+            mapping[a.kwarg.arg] = ast.Dict(keys=[ast.Constant(value=k.arg) for k in rest], values=[k.value for k in rest])
+            return mapping
         if a.vararg:
             # f(x, *rest) called with plain positional arguments: rest is the tuple of the surplus ones
             n_pos = len(a.posonlyargs + a.args) - (1 if target.kind in ('method', 'classmethod') and target.cls is not None and target.outer is None else 0)
@@ -2238,9 +2337,32 @@ class Normalizer:
                     return ks[True], ks[False]
             return None
 
+        def entry(table, key):
+            if isinstance(table, ast.Dict) and isinstance(key, ast.Constant) and all(isinstance(k, ast.Constant) for k in table.keys):
+                for k, v in zip(table.keys, table.values):
+                    if type(k.value) is type(key.value) and k.value == key.value:
+                        return clone(v), True
+                return None, True
+            return None, False
+
         class T(ast.NodeTransformer):
+            def visit_Call(self, node):
+                node = self.generic_visit(node)
+                f = node.func
+                # TABLE.get('constant'[, default]) on a constant table that is not an anchor: the entry / the default
+                if isinstance(f, ast.Attribute) and f.attr == 'get' and 1 <= len(node.args) <= 2 and not node.keywords \
+                        and isinstance(node.args[0], ast.Constant) and isinstance(f.value, (ast.Name, ast.Attribute)):
+                    v, known = entry(nz.const_table(f.value, fi), node.args[0])
+                    if known:
+                        return ast.copy_location(v if v is not None else (node.args[1] if len(node.args) == 2 else ast.Constant(value=None)), node)
+                return node
+
             def visit_Subscript(self, node):
                 node = self.generic_visit(node)
+                if isinstance(node.ctx, ast.Load) and isinstance(node.slice, ast.Constant) and isinstance(node.value, (ast.Name, ast.Attribute)):
+                    v, known = entry(nz.const_table(node.value, fi), node.slice)
+                    if known and v is not None:
+                        return ast.copy_location(v, node)
                 if not isinstance(node.ctx, ast.Load) or isinstance(node.slice, (ast.Slice, ast.Constant)):
                     return node
                 pr = None
@@ -2261,7 +2383,9 @@ class Normalizer:
             if isinstance(s_, (ast.FunctionDef, ast.AsyncFunctionDef, ast.ClassDef)):
                 out.append(s_)
             else:
-                out.append(ast.fix_missing_locations(T().visit(s_)))
+                for s1 in _canon_stmt(s_):
+                    for s2 in _canon_stmt(ast.fix_missing_locations(T().visit(s1))):
+                        out.append(ast.fix_missing_locations(s2))
         return out
 
     def unroll_block(self, stmts: list, fi: FuncInfo) -> list:
@@ -2273,7 +2397,8 @@ class Normalizer:
             nm, val = _single_name_assign(s)
             for x in stores_in([s]):
                 displays.pop(x, None)
-            if nm is not None and isinstance(val, (ast.Tuple, ast.List)) and all(_atomic(e) for e in val.elts):
+            if nm is not None and isinstance(val, (ast.Tuple, ast.List)) and val.elts \
+                    and all(_atomic(e) or (isinstance(e, (ast.Tuple, ast.List)) and all(_atomic(x) for x in e.elts)) for e in val.elts):
                 displays[nm] = val
             if isinstance(s, (ast.FunctionDef, ast.AsyncFunctionDef, ast.ClassDef)):
                 out.append(s)
@@ -2309,11 +2434,43 @@ class Normalizer:
         return None
 
     def _unroll_for(self, s: ast.For, fi: FuncInfo):
-        if s.orelse or has_node(s.body, (ast.Break, ast.Continue), stop_at_loops=True):
+        first_match = False
+        if not s.orelse and len(s.body) == 1 and isinstance(s.body[0], ast.If) and not s.body[0].orelse and s.body[0].body \
+                and isinstance(s.body[0].body[-1], ast.Break) \
+                and not has_node(s.body[0].body[:-1], (ast.Break, ast.Continue), stop_at_loops=True):
+            first_match = True      # `for e in T: if C(e): S(e); break`  ->  if C(e1): S(e1) elif C(e2): S(e2) ...
+        elif s.orelse or has_node(s.body, (ast.Break, ast.Continue), stop_at_loops=True):
             return None
         entries = self._entries(s.iter, fi)
         if entries is None:
             return None
+        if first_match:
+            if not all(_atomic(e) or (isinstance(e, (ast.Tuple, ast.List)) and all(_atomic(x) for x in e.elts)) for e in entries):
+                return None
+            chain = []
+            for e in reversed(entries):
+                mapping = {}
+                if isinstance(s.target, ast.Name):
+                    mapping[s.target.id] = e
+                elif isinstance(s.target, (ast.Tuple, ast.List)) and isinstance(e, (ast.Tuple, ast.List)) \
+                        and len(e.elts) == len(s.target.elts) and all(isinstance(t, ast.Name) for t in s.target.elts):
+                    mapping = {t.id: x for t, x in zip(s.target.elts, e.elts)}
+                else:
+                    return None
+                branch = clone(s.body[0])
+                branch.body = branch.body[:-1] or [at(ast.Pass(), s)]
+                if stores_in([branch]) & set(mapping):
+                    return None
+                mod = ast.Module(body=[branch], type_ignores=[])
+                Subst(mapping).visit(mod)
+                branch = mod.body[0]
+                branch.test = canon_expr(branch.test)
+                branch.orelse = chain
+                chain = [branch]
+            for b in chain:
+                ast.fix_missing_locations(b)
+            self.stats['unrolled'] += 1
+            return chain
         out = []
         if isinstance(s.iter, (ast.Tuple, ast.List)):
             # the display is evaluated once, before the first iteration
